@@ -246,7 +246,8 @@ def enum_search(check, cases, stats: Stats):
         try:
             check(case, stats)
         except Violation as v:
-            return (json.loads(canon(case)), v.message, v.sig)
+            # a check that explores many sub-cases itself may attach the concrete failing sub-case
+            return (json.loads(canon(getattr(v, "case", None) or case)), v.message, v.sig)
     return None
 
 
